@@ -301,9 +301,15 @@ def source_reset(ctx, db, rid='C06.source-reset'):
         n = [e for e in f.events() if e.k == 'call' and norm(e.get('callee')) == 'cocls::suspend_point::operator<<']
         # ... and nothing but the merge: the handles the target already holds are ready coroutines too; emptying the target first (clear_internal,
         # a write to its own count word) drops them without resuming them - only the running forms (clear / suspend_now / flush) may precede
-        drops = [e for g in [f] + helper_bodies(db, f) if g['nname'] != 'cocls::suspend_point::operator<<' and g['nname'] != 'cocls::suspend_point::add'
-                 for e in g.events() if (e.k == 'call' and norm(e.get('callee')) == 'cocls::suspend_point::clear_internal') or
-                 (e.k == 'write' and (e.get('path') or '') in ('this->_count_flag',)) or (e.k == 'delete' and rooted(e.get('path') or '', 'this'))] if n else []
+        drops = []
+        if n:
+            Tm = Tracer(db, depth=4, inline_filter=lambda c, e, callee: is_helper(db, c, callee) and callee['nname'] != 'cocls::suspend_point::operator<<', maxvisit=2)
+            for tr in Tm.traces(f):
+                mi = index_of(tr, callee_is('cocls::suspend_point::operator<<'))
+                for e in (tr[:mi] if mi >= 0 else tr):
+                    if (e.k == 'call' and norm(e.get('callee')) == 'cocls::suspend_point::clear_internal' and rooted(e.get('recv') or 'this', 'this')) or \
+                            (e.k == 'write' and (e.get('path') or '') == 'this->_count_flag') or (e.k == 'delete' and rooted(e.get('path') or '', 'this')):
+                        drops.append(e)
         ctx.ob(rid, f, f['key'], len(n) == 1 and not drops, 'move-assignment is the merge' + ('' if not drops else ' -- the target is emptied without running what it held (%s at %s)' % (drops[0].k, relloc(drops[0]['loc']))),
                desc='move-assignment is not implemented by the merge' if len(n) != 1 else ('move-assignment drops the handles the target already holds' if drops else None))
 
@@ -332,17 +338,17 @@ def consumers_clear(ctx, db, rid='C06.consumers-clear'):
             for it in tr:
                 if it.k == 'branch' and ('is_active' in (it.path or '') or 'coro_queue::instance' in (it.path or '')):
                     n = nullness(it); act = n[1] if n else None; break
-            ci = all_indices(tr, lambda ev: ev.k == 'call' and norm(ev.get('callee')) == 'cocls::suspend_point::clear_internal' and ev.get('depth') == 0)
+            ci = all_indices(tr, lambda ev: ev.k == 'call' and norm(ev.get('callee')) == 'cocls::suspend_point::clear_internal')
             if act:
                 na += 1
                 if len(ci) != 1:
                     bad = bad or ('coroutine-mode edge clears %d times' % len(ci), tr)
-                pi = all_indices(tr, lambda ev: ev.k == 'call' and norm(ev.get('callee')) == 'cocls::suspend_point::pop' and ev.get('depth') == 0)
+                pi = all_indices(tr, lambda ev: ev.k == 'call' and norm(ev.get('callee')) == 'cocls::suspend_point::pop')
                 if len(pi) != 1 or (ci and pi[0] > ci[0]):
                     bad = bad or ('the handle to transfer to is not popped exactly once before the clear', tr)
             elif ci:
                 bad = bad or ('normal-mode edge clears although its handles are only run by the nested call', tr)
-            elif not act and all_indices(tr, lambda ev: ev.k == 'call' and norm(ev.get('callee')) == 'cocls::suspend_point::pop' and ev.get('depth') == 0):
+            elif not act and all_indices(tr, lambda ev: ev.k == 'call' and norm(ev.get('callee')) == 'cocls::suspend_point::pop'):
                 bad = bad or ('the normal-mode edge takes a handle out of the suspend point before it delegates to the nested call: that handle is resumed by nobody', tr)
         if na == 0 and not bad:
             bad = ('no coroutine-mode edge', trs[0] if trs else [])
@@ -527,6 +533,15 @@ def _in_cycle(f, bid):
     return any(bid in reach_blocks(f, s_) for s_ in f['_blocks'][bid]['succ'] if s_ >= 0)
 
 
+def _unwrap(p):
+    """ctor(move(ctor(x))) -> x: copies and moves of a handle are the handle"""
+    while True:
+        m = re.fullmatch(r'(?:ctor|move|forward)\((.*)\)', p)
+        if not m:
+            return p
+        p = m.group(1)
+
+
 def self_inclusion(ctx, db, rid_='C06.self-inclusion'):
     """await_suspend (coroutine mode) queues every handle of the suspend point and then the awaiting coroutine itself unless it was among them.
     The flag that remembers "my own handle was in the list" is computed in a loop: every write to it inside the loop must be monotone
@@ -543,10 +558,10 @@ def self_inclusion(ctx, db, rid_='C06.self-inclusion'):
             if not live(tr):
                 continue
             for i, it in enumerate(tr):
-                if it.k == 'call' and it.get('depth', 0) == 0 and norm(it.get('callee') or '').endswith('::push') and any((a.get('path') or '') in (hname, 'ctor(%s)' % hname) for a in it.get('args', [])):
+                if it.k == 'call' and not it.get('expanded') and norm(it.get('callee') or '').endswith('::push') and any(_unwrap(a.get('path') or '') == hname for a in it.get('args', [])):
                     g = None
                     for b in reversed(tr[:i]):
-                        if b.k == 'branch' and b.get('depth', 0) == 0 and re.search(r'local:\w+(#\d+)?', (b.get('opath') or '') + ' ' + (b.get('path') or '')):
+                        if b.k == 'branch' and b.get('depth', 0) == it.get('depth', 0) and re.search(r'local:\w+(#\d+)?', (b.get('opath') or '') + ' ' + (b.get('path') or '')):
                             # the flag itself, or - when the scan was extracted into a helper that returns it - the helper's flag
                             g = re.search(r'local:\w+(#\d+)?', (b.get('opath') or '') if re.search(r'local:\w+', b.get('opath') or '') else (b.get('path') or '')).group(0); break
                     if g is None:
